@@ -326,6 +326,10 @@ class Run:
             rec["codes"] = codes(lines)
             rec["lines"] = lines
             self._learn_port(lines)
+        elif kind == "cmdhex":
+            lines = await self.raw.send(bytes.fromhex(arg))
+            rec["codes"] = codes(lines)
+            rec["lines"] = lines
         elif kind == "pipe":
             self.raw.writer.write("".join(l + "\r\n" for l in arg).encode())
             lines = await self.raw.drain_replies()
@@ -387,7 +391,7 @@ class Run:
             rec["waiting"] = sorted(op for op, evs in CTL.waiting.items() if evs)
         else:
             raise ValueError(step)
-        if kind not in ("cmd", "pipe", "ticksend"):
+        if kind not in ("cmd", "cmdhex", "pipe", "ticksend"):
             lines = self.raw.take()
             rec["codes"] = codes(lines)
             rec["lines"] = lines
@@ -859,6 +863,8 @@ def transfer_setup(verb, place, size=None, rest=None, listen="PASV"):
     steps = [["cmd", "USER anonymous"], ["cmd", listen]]
     gates = []
     c = cmd_of(verb) if verb else None
+    if rest and verb == "STOR":
+        c = "STOR old"  # a restarted upload needs the file to exist (r+b)
     pre = [["cmd", f"REST {rest}"]] if rest else []
     kind = place[0]
     if kind == "idle":
